@@ -37,7 +37,8 @@ def workdir(tag):
     return d
 
 
-def run(d, module, cfg_text, workers=8, timeout=600, extra=(), dump_trace=True, heap="8g", env=None):
+def run(d, module, cfg_text, workers=8, timeout=600, extra=(), dump_trace=True, heap="6g", env=None,
+        keep_java_opts=False):
     """model-check module.tla (already in d) with the given cfg text"""
     with open(os.path.join(d, module + ".cfg"), "w") as f:
         f.write(cfg_text)
@@ -55,7 +56,10 @@ def run(d, module, cfg_text, workers=8, timeout=600, extra=(), dump_trace=True, 
     e = dict(os.environ)
     e["JAVA_TOOL_OPTIONS"] = "-XX:+UseParallelGC -Xss64m -Xmx%s -Xms%s" % (heap, heap)
     if env:
+        jo = e["JAVA_TOOL_OPTIONS"]
         e.update(env)
+        if not keep_java_opts:
+            e["JAVA_TOOL_OPTIONS"] = jo
     try:
         p = subprocess.run(cmd, cwd=d, stdout=subprocess.PIPE, stderr=subprocess.STDOUT, timeout=timeout,
                            text=True, env=e)
@@ -67,7 +71,7 @@ def run(d, module, cfg_text, workers=8, timeout=600, extra=(), dump_trace=True, 
     parse_output(r)
     if os.path.exists(trace_file):
         try:
-            r.trace = json.load(open(trace_file)).get("state")
+            r.trace = json.load(open(trace_file))["counterexample"]["state"]
         except Exception:
             r.trace = None
     return r
@@ -103,7 +107,7 @@ def parse_output(r):
 
 JAVA_OPTS = "-XX:+UseParallelGC -Xss64m -Xmx%s -Xms%s"
 
-_edge = re.compile(r'^<<"E", <<(-?\d+), (-?\d+)>>, <<(-?\d+), (-?\d+)>>, "(.*)">>$')
+_edge = re.compile(r'^<<"E", <<(-?\d+), (-?\d+)>>, <<(-?\d+), (-?\d+)>>, (\d), "(.*)">>$')
 _init = re.compile(r'^<<"I", <<(-?\d+), (-?\d+)>>, "(.*)">>$')
 
 
@@ -117,6 +121,7 @@ class Graph:
         self.succ = {}      # node -> list of nodes
         self.inits = []     # initial nodes
         self.prog = {}      # init node -> program
+        self.done = set()   # nodes in which every thread has finished (AllDone)
 
     def edges(self):
         return sum(len(v) for v in self.succ.values())
@@ -154,7 +159,9 @@ def graph(d, module, cfg_text, timeout=900, heap="6g", workers=12):
                 g.succ.setdefault(u, []).append(v)
                 g.succ.setdefault(v, [])
                 if v not in g.lbl:
-                    g.lbl[v] = json.loads(_unq(m.group(5)))
+                    g.lbl[v] = json.loads(_unq(m.group(6)))
+                    if m.group(5) == "1":
+                        g.done.add(v)
             elif line.startswith('<<"I"'):
                 m = _init.match(line.rstrip("\n"))
                 u = m.group(1) + ":" + m.group(2)
